@@ -888,7 +888,7 @@ impl<'a> FieldParser<'a> {
                 self.append(format!("for (size_t n = 0; n < output->{id}_count_; n++) {{"));
                 self.append(format!("    auto element_span = span.subrange(n * output->{id}_element_size_, output->{id}_element_size_);"));
                 let out = self.parse_array_element(field, "element_span".to_string());
-                self.append(format!("    output->{id}_[n] = {out};"));
+                self.append(format!("    output->{id}_.push_back({out});"));
                 self.append("}".to_string());
                 self.append(format!(
                     "span.skip(output->{id}_element_size_ * output->{id}_count_);"
@@ -908,7 +908,7 @@ impl<'a> FieldParser<'a> {
                 self.append(format!("for (size_t n = 0; n < {id}_count_; n++) {{"));
                 self.append(format!("    auto element_span = span.subrange(n * output->{id}_element_size_, output->{id}_element_size_);"));
                 let out = self.parse_array_element(field, "element_span".to_string());
-                self.append(format!("    output->{id}_[n] = {out};"));
+                self.append(format!("    output->{id}_.push_back({out});"));
                 self.append("}".to_string());
                 self.append(format!("span.skip(output->{id}_size_);"));
             }
@@ -923,7 +923,7 @@ impl<'a> FieldParser<'a> {
                 self.append(format!("for (size_t n = 0; n < {id}_count_; n++) {{"));
                 self.append(format!("    auto element_span = span.subrange(n * output->{id}_element_size_, output->{id}_element_size_);"));
                 let out = self.parse_array_element(field, "element_span".to_string());
-                self.append(format!("    output->{id}_[n] = {out};"));
+                self.append(format!("    output->{id}_.push_back({out});"));
                 self.append("}".to_string());
                 self.append("span.clear();".to_string());
             }
